@@ -2,6 +2,7 @@
 // stdin and prints one canonical line per case (see /verif/DESIGN.md §2.3).
 mod codec;
 mod m_ast;
+mod m_include;
 mod m_lex;
 mod m_parse;
 mod m_sema;
@@ -32,6 +33,8 @@ fn main() {
     let f: fn(&str) -> String = match mode {
         "types" => m_types::line,
         "symtab" => m_symtab::line,
+        "include" => m_include::line,
+        "incscan" => m_include::scan,
         "lex" => m_lex::line,
         "parse" => m_parse::line,
         "tree" => m_tree::line,
